@@ -15,8 +15,8 @@ P09q == [p \in {"+p", ".", "a", "ab", "d", "d-", "d/a"} |-> IF p = "d/a" THEN "d
 U11 == <<".", "d", "d/f", "dev", "e", "f", "g", "k", "l", "ro", "ro/f", "z">>
 P11 == [p \in {".", "d", "d/f", "dev", "e", "f", "g", "k", "l", "ro", "ro/f", "z"} |-> IF p = "d/f" THEN "d" ELSE IF p = "ro/f" THEN "ro" ELSE "."]
 
-U13 == <<".", "_b", "a", "b", "ba", "c", "d", "d/a", "d/b", "d/e", "d/e/a">>     \* "ba" merely ENDS with the pattern "a"; "_b" starts with a separator character of the rule syntax
-P13 == [p \in {".", "_b", "a", "b", "ba", "c", "d", "d/a", "d/b", "d/e", "d/e/a"} |-> IF p \in {"d/a", "d/b", "d/e"} THEN "d" ELSE IF p = "d/e/a" THEN "d/e" ELSE "."]
+U13 == <<".", "_b", "a", "b", "ba", "bl", "c", "d", "d/a", "d/b", "d/e", "d/e/a">>     \* "ba" merely ENDS with the pattern "a"; "_b" starts with a separator character of the rule syntax; "bl" is a symlink (neither file nor directory) with siblings after it
+P13 == [p \in {".", "_b", "a", "b", "ba", "bl", "c", "d", "d/a", "d/b", "d/e", "d/e/a"} |-> IF p \in {"d/a", "d/b", "d/e"} THEN "d" ELSE IF p = "d/e/a" THEN "d/e" ELSE "."]
 U14 == <<".", "d", "d/f", "dev", "f", "k", "l", "z">>
 P14 == [p \in {".", "d", "d/f", "dev", "f", "k", "l", "z"} |-> IF p = "d/f" THEN "d" ELSE "."]
 U01 == <<".", "a", "b", "d", "d-", "d/a">>
@@ -29,7 +29,7 @@ Uconc == <<".", "d", "d/e", "d/e/h02", "d/e/h05", "d/e/h08", "d/e/h11", "d/e/h14
 Pconc == "." :> "." @@ "d" :> "." @@ "d/e" :> "d" @@ "d/e/h02" :> "d/e" @@ "d/e/h05" :> "d/e" @@ "d/e/h08" :> "d/e" @@ "d/e/h11" :> "d/e" @@ "d/e/h14" :> "d/e" @@ "d/e/h17" :> "d/e" @@ "d/e/h20" :> "d/e" @@ "d/e/h23" :> "d/e" @@ "d/g01" :> "d" @@ "d/g04" :> "d" @@ "d/g07" :> "d" @@ "d/g10" :> "d" @@ "d/g13" :> "d" @@ "d/g16" :> "d" @@ "d/g19" :> "d" @@ "d/g22" :> "d" @@ "f00" :> "." @@ "f03" :> "." @@ "f06" :> "." @@ "f09" :> "." @@ "f12" :> "." @@ "f15" :> "." @@ "f18" :> "." @@ "f21" :> "." @@ "lnk" :> "."
 Bconc == "." :> "." @@ "d" :> "d" @@ "d/e" :> "e" @@ "d/e/h02" :> "h02" @@ "d/e/h05" :> "h05" @@ "d/e/h08" :> "h08" @@ "d/e/h11" :> "h11" @@ "d/e/h14" :> "h14" @@ "d/e/h17" :> "h17" @@ "d/e/h20" :> "h20" @@ "d/e/h23" :> "h23" @@ "d/g01" :> "g01" @@ "d/g04" :> "g04" @@ "d/g07" :> "g07" @@ "d/g10" :> "g10" @@ "d/g13" :> "g13" @@ "d/g16" :> "g16" @@ "d/g19" :> "g19" @@ "d/g22" :> "g22" @@ "f00" :> "f00" @@ "f03" :> "f03" @@ "f06" :> "f06" @@ "f09" :> "f09" @@ "f12" :> "f12" @@ "f15" :> "f15" @@ "f18" :> "f18" @@ "f21" :> "f21" @@ "lnk" :> "lnk"
 (* last path component of every path used in any universe *)
-BaseAll == [p \in {".", "a", "ab", "b", "c", "d", "d/a", "d/b", "d/c", "d/e", "d/e/a", "d/f", "e", "e/a", "f", "l", "ro", "ro/f", "s", "x", "x/f", "y", "z", "k", "d/l", "dev", "+p", "-d", "d-", "g", "ba", "_b", ".h", "Z", "a b", "data", "data-old", "data.txt", "data/inner"} |->
+BaseAll == [p \in {".", "a", "ab", "b", "c", "d", "d/a", "d/b", "d/c", "d/e", "d/e/a", "d/f", "e", "e/a", "f", "l", "ro", "ro/f", "s", "x", "x/f", "y", "z", "k", "d/l", "dev", "+p", "-d", "d-", "g", "ba", "bl", "_b", ".h", "Z", "a b", "data", "data-old", "data.txt", "data/inner"} |->
    CASE p \in {"d/a", "d/e/a", "e/a"} -> "a" [] p = "d/b" -> "b" [] p = "d/c" -> "c" [] p = "d/e" -> "e"
      [] p \in {"d/f", "ro/f", "x/f"} -> "f" [] p = "d/l" -> "l" [] p = "data/inner" -> "inner" [] OTHER -> p]
 =============================================================================
